@@ -403,7 +403,7 @@ func c10TwoVersionIntake(r *hx.Run, caseID, ns string, strict, base protocol.Pro
 
 func c10(r *hx.Run) {
 	fx.Quiet()
-	r.Rule = "(a) for each valid seed (4 types x 5 key types, nonce absent/present for Ed25519 and P-256) every limit parameter is set to measured value -1, +0, +1 while all other parameters are generous and pairwise distinct: accepted iff limit >= measured (nonce: == measured); every enabled-list entry used by the request is removed in turn; unrelated parameters are toggled; each of these cases is also submitted to a DocumentHandler with two protocol versions (the tested parameters in the first or the second, either one current) for times in both versions: judged by, and queued under, the version in force at the submitted time; (b) every JSON path of the request, the decoded signed data and the protected header is removed / replaced by 11 foreign values (re-signed): accepted => independent rule predicate; (c) Parse, ParseOperation(batch and not), GetRevealValue, GetCommitment, ParseDID on every prefix, every path-mutation and a DID-string grammar: error or value, never a panic. Non-trivial: distinct requests that the real parser rejects or that reach a boundary."
+	r.Rule = "(a) for each valid seed (4 types x 5 key types, nonce absent/present for Ed25519 and P-256) every limit parameter is set to measured value -1, +0, +1 while all other parameters are generous and pairwise distinct: accepted iff limit >= measured (nonce: == measured); requests padded with white space at the size limit; deltas containing characters that encoding/json escapes at the delta limit; every enabled-list entry used by the request is removed in turn; unrelated parameters are toggled; each of these cases is also submitted to a DocumentHandler with two protocol versions (the tested parameters in the first or the second, either one current) for times in both versions: judged by, and queued under, the version in force at the submitted time; (b) every JSON path of the request, the decoded signed data and the protected header is removed / replaced by 11 foreign values (re-signed): accepted => independent rule predicate; (c) Parse, ParseOperation(batch and not), GetRevealValue, GetCommitment, ParseDID on every prefix, every path-mutation and a DID-string grammar: error or value, never a panic. Non-trivial: distinct requests that the real parser rejects or that reach a boundary."
 	seeds := c10Seeds()
 	base := fx.DefaultProtocol()
 	ns := "did:sidetree"
@@ -499,6 +499,58 @@ func c10(r *hx.Run) {
 				if (err == nil) != (dv >= 0) {
 					r.Violation(fmt.Sprintf("boundary:MaxDeltaSize:wire-smaller-than-canonical:%+d:accepted=%v", dv, err == nil), caseID,
 						fmt.Sprintf("%s: request of %d bytes whose canonical delta has %d bytes, MaxDeltaSize=%d: accepted=%v (%v)", s.name, len(wire), d2, d2+dv, err == nil, err), map[string]interface{}{"request": string(wire)})
+				}
+			}
+		}
+		// white space around the request counts: the limit is on the bytes received (and handed on), not on a trimmed copy
+		for pi, pad := range [][2]string{{"", "\n"}, {"", " "}, {"", "\r\n"}, {" ", ""}, {"\n", "\t"}, {"", strings.Repeat(" ", 500)}} {
+			caseID := fmt.Sprintf("a|%s|MaxOperationSize:padded|%d", s.name, pi)
+			if !r.Want(caseID) {
+				continue
+			}
+			padded := []byte(pad[0] + string(req) + pad[1])
+			p := base
+			p.MaxOperationSize = uint(n)
+			err := parse(p, padded)
+			r.Eval()
+			r.Trans(1)
+			r.Nontrivial(caseID)
+			if err == nil {
+				r.Violation("boundary:MaxOperationSize:padded-request-accepted", caseID, fmt.Sprintf("%s: request of %d bytes (%d without the surrounding white space) accepted with MaxOperationSize=%d", s.name, len(padded), n, n), map[string]interface{}{"request": string(padded)})
+			}
+		}
+		if s.typ != "deactivate" {
+			// a delta with characters that encoding/json escapes (& < > U+2028) but the canonical form keeps raw: the limit
+			// applies to the canonical delta
+			cp := *s
+			extra := fx.AddServicePatch("amp", "https://example.com/?a=1&b=<2>\u2028c")
+			if s.create != nil {
+				c := *s.create
+				c.Patches = append(append([]interface{}{}, c.Patches...), extra)
+				cp.create = &c
+			} else {
+				o := *s.op
+				o.Patches = append(append([]interface{}{}, o.Patches...), extra)
+				cp.op = &o
+			}
+			req3 := cp.build()
+			var t3 map[string]interface{}
+			_ = json.Unmarshal(req3, &t3)
+			d3 := len(jcs.MustCanon(t3["delta"]))
+			for _, dv := range []int{-1, 0, 1} {
+				caseID := fmt.Sprintf("a|%s|MaxDeltaSize:escaped-characters|%+d", s.name, dv)
+				if !r.Want(caseID) {
+					continue
+				}
+				p := base
+				p.MaxDeltaSize = uint(d3 + dv)
+				err := parse(p, req3)
+				r.Eval()
+				r.Trans(1)
+				r.Nontrivial(caseID)
+				if (err == nil) != (dv >= 0) {
+					r.Violation(fmt.Sprintf("boundary:MaxDeltaSize:escaped-characters:%+d:accepted=%v", dv, err == nil), caseID,
+						fmt.Sprintf("%s: canonical delta of %d bytes containing & < > U+2028, MaxDeltaSize=%d: accepted=%v (%v)", s.name, d3, d3+dv, err == nil, err), map[string]interface{}{"request": string(req3)})
 				}
 			}
 		}
